@@ -194,12 +194,12 @@ OpUpdateMeta(S_) == /\ S_ # {} /\ S_ \subseteq VarIds(heap)
                             heap |-> UpdateMeta(heap, S_)], UpdateMeta(heap, S_))
 OpPop(f) == LET L == Leaves(heap)
                 S_ == {L[j].id : j \in {j \in 1..Len(L) : L[j].id # 0 /\ Match(f, L[j])}}
-                \* path-sensitive filters: selection is by the Variable's path, so only unaliased Variables are considered
-                \* (state() lists an aliased Variable under its first path only, pop() meets it under every path)
-                unaliased == \A id \in VarIds(heap) : Cardinality({<<p, j>> : p \in Parents(heap, id) \cap Reachable(heap), j \in 1..2} \cap
-                                                                   {<<p, j>> \in (1..Len(heap)) \X (1..2) : heap[p].s[j] = id}) = 1
+                \* (state() lists an aliased Variable under its first path only, pop() meets it under every path): the graph
+                \* must be a tree - every reachable object, containers included, is referenced from exactly one slot
+                unaliased == \A id \in Reachable(heap) \ {1} :
+                               Cardinality({<<p, j>> \in (Reachable(heap) \X (1..2)) : ~IsVar(heap[p]) /\ heap[p].s[j] = id}) = 1
             IN /\ f \in {"P", "Q", "V", "pa", "pb"} /\ S_ # {} /\ Poppable(heap, S_)
-               /\ (f \in {"pa", "pb"} => unaliased /\ \A id \in Modules(heap) : Cardinality(Parents(heap, id) \cap Reachable(heap)) <= 1)
+               /\ (f \in {"pa", "pb"} => unaliased /\ 1 \notin {heap[p].s[j] : p \in Reachable(heap) \cap {q \in 1..Len(heap) : ~IsVar(heap[q])}, j \in 1..2})
                /\ Api([op |-> "pop", f |-> f, popped |-> {L[j].keys : j \in {j \in 1..Len(L) : L[j].id \in S_}},
                        heap |-> PopHeap(heap, S_)], PopHeap(heap, S_))
 OpClone == Api([op |-> "clone", heap |-> heap], heap)
